@@ -17,7 +17,10 @@ CLAIM = {
             "edge, any new edge on a cycle is a violation; (R20.2) per-channel check-then-act atomicity: in both "
             "counterparty signing entry points validate_payments, the counter advance and apply_payments happen "
             "under one uninterrupted hold of the NodeState guard (no drop/re-lock in between), and &mut Channel is "
-            "only obtainable through the ChannelSlot guard (who-may-call of the slot lock). Does not decide "
+            "only obtainable through the ChannelSlot guard (who-may-call of the slot lock); (R20.3) no function releases a "
+            "core lock and re-acquires the same class for writing without another guard held across the gap "
+            "(check and act under one hold); (R20.4) a function that inserts a slot into the shared channel map and "
+            "afterwards writes that channel's snapshot to the store keeps the map guard until the write is done. Does not decide "
             "linearizability of outcomes (schedule-dependent values).",
     "note": "CHA over-approximates dynamic dispatch; lock identity is abstracted to the protected type (two "
             "ChannelSlot mutexes are one class); try_lock is treated as lock",
@@ -39,6 +42,7 @@ def run(ctx):
     r201(ctx)
     r202(ctx)
     r203(ctx)
+    r204(ctx)
 
 
 def r201(ctx):
@@ -252,3 +256,103 @@ def r203(ctx):
                            where=f"{b.file}:{c2.line}", sample=SERIALIZED.get((on, cls)))
     ctx.floor("R20.3", "functions acquiring core locks", n_fn, 30)
     ctx.extra["functions_reacquiring_a_class"] = n_multi
+
+
+def r204(ctx):
+    ctx.rule("R20.4", "publish-then-persist under one hold: a function that inserts a slot into the shared channel map and "
+                      "afterwards writes that channel's snapshot to the store keeps the map guard until the write is done "
+                      "(otherwise a concurrent request on the new slot persists newer state that the stale snapshot then "
+                      "overwrites)")
+    p = ctx.prog
+    la = locks.LockAnalysis(p, scope=lambda x: False)
+    MAP = "BTreeMap<ChannelId, Arc<Mutex<ChannelSlot>>>"
+    is_store = lambda n: n.endswith("persist::Persist::update_channel") or n.endswith("persist::Persist::new_channel") \
+        or n.endswith("persist::Persist>::update_channel") or n.endswith("persist::Persist>::new_channel")
+    n = 0
+    for b in sorted(p.bodies.values(), key=lambda x: x.name):
+        if b.d.krate != "lightning_signer" or b.d.is_bin:
+            continue
+        on = R.owner_name(p, b)
+        if R.is_test_util(on) or on in NOT_SHARED:
+            continue
+        f = la.facts(b)
+        guards = [l for l, cls in f["guards"].items() if cls == MAP]
+        if not guards:
+            continue
+        fv = fnview(ctx, b)
+        # &mut borrows of the guard and the DerefMut results obtained from them
+        refs = {}
+        for bi in range(fv.n):
+            if b.cleanup[bi]:
+                continue
+            for s_ in b.stmts(bi):
+                if s_.kind == "a" and s_.rv.op == "ref" and s_.rv.a and s_.place.is_local() and s_.rv.place.is_local() \
+                   and s_.rv.place.local in guards:
+                    refs[s_.place.local] = s_.rv.place.local
+        derefs = {}
+        for bi, c in b.calls():
+            nm = c.callee.name if c.callee else ""
+            if "ops::DerefMut>::deref_mut" in nm and c.args and c.args[0].place is not None and c.args[0].place.local in refs \
+               and c.dest.is_local():
+                derefs[c.dest.local] = refs[c.args[0].place.local]
+        inserts = []
+        for bi, c in b.calls():
+            nm = c.callee.name if c.callee else ""
+            if nm.endswith("BTreeMap::<K, V, A>::insert") and c.args and c.args[0].place is not None:
+                l0 = c.args[0].place.local
+                # the receiver is (a reborrow of) the deref_mut result
+                src = l0
+                for _ in range(4):
+                    if src in derefs:
+                        break
+                    sd = fv.single_def(src)
+                    if sd is None or sd[1] == "T" or sd[2].kind != "a" or sd[2].rv.place is None and not sd[2].rv.ops:
+                        break
+                    pl = sd[2].rv.place if sd[2].rv.place is not None else sd[2].rv.ops[0].place
+                    if pl is None:
+                        break
+                    src = pl.local
+                if src in derefs:
+                    inserts.append((bi, c, derefs[src]))
+        stores = [(bi, c) for bi, c in b.calls() if is_store(c.callee.name if c.callee else "") or is_store(c.decl.name if c.decl else "")]
+        if not inserts or not stores:
+            continue
+        n += 1
+        for ibi, ic, g in inserts:
+            rel = set()
+            # the guard may be moved into a temporary first (`drop(channels)` is `_t = move _g; mem::drop(move _t)`)
+            alias = {g}
+            for bi in range(fv.n):
+                if b.cleanup[bi]:
+                    continue
+                for s_ in b.stmts(bi):
+                    if s_.kind == "a" and s_.rv.op == "use" and s_.place.is_local() and s_.rv.ops[0].kind == "m" \
+                       and s_.rv.ops[0].place is not None and s_.rv.ops[0].place.is_local() and s_.rv.ops[0].place.local in alias:
+                        alias.add(s_.place.local)
+            for bi in range(fv.n):
+                if b.cleanup[bi]:
+                    continue
+                t = b.term(bi)
+                if t.kind == "drop" and t.place.is_local() and t.place.local in alias:
+                    rel.add(bi)
+                elif t.kind == "call" and any(a.kind == "m" and a.place is not None and a.place.is_local() and a.place.local in alias
+                                              for a in t.call.args):
+                    rel.add(bi)
+            after_ins = set()
+            for t in b.term(ibi).targets[:1]:
+                after_ins = fv.reach(t)
+            for sbi, sc in stores:
+                if sbi not in after_ins:
+                    continue
+                # is there a path insert -> release -> store ?
+                bad = None
+                for r_ in rel:
+                    if r_ in after_ins and any(sbi in fv.reach(t) for t in b.term(r_).targets[:1]):
+                        bad = r_
+                        break
+                ctx.ob("R20.4", bad is None, f"{on}/publish-then-persist/{(sc.decl.name if sc.decl else sc.callee.name).rsplit('::', 1)[-1]}",
+                       f"`{on}` inserts the channel slot into the shared map (line {ic.line}), releases the map guard (line "
+                       f"{b.term(bad).line if bad is not None else 0}) and only then writes the channel snapshot (line {sc.line}): a "
+                       f"concurrent request on the new slot can persist newer state that this stale snapshot overwrites",
+                       where=f"{b.file}:{sc.line}", sample="map guard held from insert to the store write")
+    ctx.floor("R20.4", "functions that publish a slot and persist it", n, 2)
